@@ -57,12 +57,9 @@ def run(ctx):
         cfg = cfg_of(fn)
         # the vector whose elements become header lines: `X.headers` of some Response value, or a plain local list
         iter_vec = None
-        for bid, t in fn.calls():
-            c = callee_name(t) or ""
-            if "IntoIterator" in c and c.endswith("::into_iter") and t["args"] and "header::Header" in " ".join(t.get("arg_tys") or []):
-                v = du.val_operand(t["args"][0])
-                while v[0] == "call" and v[1] and v[1].endswith(("::iter", "::iter_mut", "as std::clone::Clone>::clone")) and v[2]:
-                    v = v[2][0]          # `x.headers.iter()`, `x.headers.clone()` taken right here: the elements of x.headers
+        from .parse_common import fully_iterated
+        for bid, v in fully_iterated(fn, du, "header::Header"):
+                # `for h in x.headers`, `x.headers.iter().map(line).collect()`, `x.headers.clone()` taken right here: the elements of x.headers
                 tg = val_ref_target(du, v) if v[0] in ("ref", "place", "call") else None
                 if tg is not None:
                     iter_vec = _norm_vec(du, tg)
@@ -110,6 +107,11 @@ def run(ctx):
             if not ok:
                 r2.violate("C15|R2|%s|%s" % (sname, hname), "%s pushes %s onto a different Response than the one whose headers it serialises (the header never reaches the bytes; read back, the value is lost)" % (sname, hname),
                            t["span"]["file"], t["span"]["line"], sname)
+        if k == 0 and any(const_str(nv) in ("Content-Type", "Content-Range", "Content-Length") for _, _, nv, _ in header_aggregates(fn)):
+            # the framing headers are not pushed one by one (a `vec![..]` handed to `extend`, a helper returning the list): which
+            # vector they end up in is not followed element by element
+            r2.note("%s builds its framing headers as a list and appends the list: the element-wise rule has nothing to judge here (not decided)" % sname)
+            r2.floor = 0
         if sname == "response::Response::generate_response":
             body_locals = [t["dest"]["l"] for _, t in fn.calls() if callee_name(t) == "response::Response::generate_body"]
             for bid in cfg.live_blocks():
